@@ -211,6 +211,7 @@ Definition http_counter (what : Z) (c : case) : Z :=
                 (if (what =? 2) && (proto =? 1) then 1 else 0)
             | (HRegister _ _ _ _, out) => if (what =? 3) && hp_out_eqb out HRegConflict then 1 else 0
             | (HConnect _ _, out) => if (what =? 4) && negb (hp_out_eqb out HNotFound) then 1 else 0
+            | (HBeginRaced _ _ _ _ _ _ _ _, _) => if what =? 5 then 1 else 0
             | _ => 0
             end) ops 0
   | _ => 0
